@@ -77,6 +77,72 @@ fn struct_fields(file: &syn::File, rel: &str, name: &str) -> Result<Vec<String>,
     Err(format!("{rel}: struct {name} not found"))
 }
 
+/// the type argument of every `try_deserialize_record` call in the node's and the networking layer's record paths
+fn deserialize_call_types(repo: &PathBuf) -> Result<Vec<String>, String> {
+    struct V {
+        found: Vec<String>,
+        errs: Vec<String>,
+    }
+    fn callee(e: &syn::Expr) -> Option<&syn::ExprCall> {
+        match e {
+            syn::Expr::Try(t) => callee(&t.expr),
+            syn::Expr::Paren(p) => callee(&p.expr),
+            syn::Expr::Call(c) => match &*c.func {
+                syn::Expr::Path(p) if p.path.segments.last().map(|s| s.ident == "try_deserialize_record").unwrap_or(false) => Some(c),
+                _ => None,
+            },
+            _ => None,
+        }
+    }
+    fn turbofish(c: &syn::ExprCall) -> Option<String> {
+        if let syn::Expr::Path(p) = &*c.func {
+            if let syn::PathArguments::AngleBracketed(a) = &p.path.segments.last()?.arguments {
+                if a.args.len() == 1 {
+                    return Some(toks(&a.args[0]));
+                }
+            }
+        }
+        None
+    }
+    impl<'ast> syn::visit::Visit<'ast> for V {
+        fn visit_local(&mut self, l: &'ast syn::Local) {
+            if let (syn::Pat::Type(pt), Some(init)) = (&l.pat, &l.init) {
+                if let Some(c) = callee(&init.expr) {
+                    if turbofish(c).is_none() {
+                        self.found.push(toks(&pt.ty));
+                        for a in &c.args {
+                            self.visit_expr(a);
+                        }
+                        return;
+                    }
+                }
+            }
+            syn::visit::visit_local(self, l);
+        }
+        fn visit_expr_call(&mut self, c: &'ast syn::ExprCall) {
+            if callee(&syn::Expr::Call(c.clone())).is_some() {
+                match turbofish(c) {
+                    Some(t) => self.found.push(t),
+                    None => self.errs.push("a try_deserialize_record call whose type is inferred (no turbofish, no annotated let)".into()),
+                }
+            }
+            syn::visit::visit_expr_call(self, c);
+        }
+    }
+    let mut v = V { found: vec![], errs: vec![] };
+    for rel in ["ant-node/src/put_validation.rs", "ant-networking/src/transactions.rs", "ant-networking/src/driver.rs", "ant-networking/src/record_store.rs", "ant-networking/src/lib.rs"] {
+        let file = parse_file(&repo.join(rel))?;
+        let before = v.errs.len();
+        syn::visit::Visit::visit_file(&mut v, &file);
+        if v.errs.len() > before {
+            return Err(format!("{rel}: {}", v.errs[before]));
+        }
+    }
+    v.found.sort();
+    v.found.dedup();
+    Ok(v.found)
+}
+
 pub fn generate(repo: &PathBuf) -> Result<String, String> {
     let enums: [(&str, &str); 10] = [
         ("ant-protocol/src/lib.rs", "NetworkAddress"),
@@ -90,7 +156,7 @@ pub fn generate(repo: &PathBuf) -> Result<String, String> {
         ("ant-protocol/src/error.rs", "Error"),
         ("ant-registers/src/permissions.rs", "Permissions"),
     ];
-    let structs: [(&str, &str); 14] = [
+    let structs: [(&str, &str); 15] = [
         ("ant-protocol/src/storage/header.rs", "RecordHeader"),
         ("ant-evm/src/data_payments.rs", "PaymentQuote"),
         ("ant-evm/src/data_payments.rs", "ProofOfPayment"),
@@ -103,6 +169,7 @@ pub fn generate(repo: &PathBuf) -> Result<String, String> {
         ("ant-protocol/src/storage/address/chunk.rs", "ChunkAddress"),
         ("ant-protocol/src/storage/address/transaction.rs", "TransactionAddress"),
         ("ant-protocol/src/messages/chunk_proof.rs", "ChunkProof"),
+        ("ant-evm/src/data_payments.rs", "EncodedPeerId"),
         // the payload of the two register kinds
         ("ant-registers/src/register.rs", "Register"),
         ("ant-registers/src/register.rs", "SignedRegister"),
@@ -123,6 +190,9 @@ pub fn generate(repo: &PathBuf) -> Result<String, String> {
         let body = v.iter().map(|n| format!("\"{n}\"")).collect::<Vec<_>>().join(", ");
         s.push_str(&format!("/-- `struct {name}` ({rel}): fields in declaration order -/\ndef struct_{name} : List String := [{body}]\n"));
     }
+    let tys = deserialize_call_types(repo)?;
+    let body = tys.iter().map(|n| format!("\"{n}\"")).collect::<Vec<_>>().join(", ");
+    s.push_str(&format!("/-- the types records are deserialised as: every `try_deserialize_record::<T>(..)` / `let _: T = try_deserialize_record(..)`\nin ant-node/src/put_validation.rs and ant-networking/src/{{transactions,driver,record_store,lib}}.rs (sorted, spaces removed) -/\ndef deserializeRecordTypes : List String := [{body}]\n"));
     s.push_str("end SafeNet.Gen.WireShape\n");
     Ok(s)
 }
